@@ -14,6 +14,7 @@ the value `Σ sᵢ • bᵢ`, the Horner loop of `batch_verify` evaluates the po
 `n-1` roots.
 -/
 namespace MidnightZK.C15
+set_option linter.unusedSectionVars false
 
 section
 variable {F G : Type} [Field F] [DecidableEq F] [AddCommGroup G] [Module F G]
@@ -50,9 +51,10 @@ theorem msmSpecific_eq (m : MsmKzg F G) : msmSpecific m = m.value := by
     induction m with
     | nil => simp [msmSum]
     | cons t m ih =>
+      rw [List.filter_cons]
       by_cases h : t.scalar = 0
-      · simp [List.filter_cons, h, ih]
-      · simp [List.filter_cons, h, ih, msmSum_cons]
+      · rw [if_neg (by simp [h]), ih]; simp [h]
+      · rw [if_pos (by simp [h]), List.map_cons, msmSum_cons, ih]; simp
   simp only []
   split
   · next h =>
